@@ -12,7 +12,7 @@ import (
 
 func init() {
 	register("C06", "other", "T8 normalised comparisons (max / interval overlap), T4 two-sided guards, loop abstraction (every branch / every parent / every pair), provenance (what is gathered, collected and stored), ownership (storage origins of the branch table), T20 WrapperDelegation",
-		"Decides the structural necessary conditions of the merged vector clock, not its values. Every clause works on the inlined view of its function (c06_inline.go): helpers of the same package that contain the calls the clause talks about are expanded in place (parameters bound to the arguments, single-return predicates substituted into conditions, results handed over through a result variable), so the facts are the same whether a loop, a loop body, a search or the final store is written out or lives in an extracted method; a stored entry may be a result carrier that receives the accumulator after the scan or the fork-detected branch itself. (gather) the merged entry of a creator is computed from every branch of that creator: the accumulator starts as the zero entry, is replaced by a branch exactly on the edges `branch is fork-detected` or `branch.Seq > accumulated.Seq` (normal form, so the maximum and not the minimum or the last is kept), the loop is left early only after a fork-detected branch, and the accumulator is stored for the requested validator on every path. (collect) when an event's vector collects a parent's vector the loop covers all branch indexes 0..num-1, an iteration ends without a write only when the parent's entry is empty (Seq == 0 and not fork-detected), the own entry is already fork-detected, or the own Seq is not smaller; the own Seq is overwritten by the parent's exactly on the `mine.Seq < his.Seq` edge and then stored. (fill) every parent's stored vector is collected into the vector that is later stored for the event, over all branches, after the vector was initialised with the event's own (branch, seq, seq). (detect) forks not seen by a single parent: for every validator not already marked, every ordered pair of distinct, non-empty branches is tested with the interval-overlap test MinSeq(a) <= Seq(b) && MinSeq(b) <= Seq(a) (normal form), the fork is marked exactly on that edge, and the pass runs whenever the index has at least one fork. (merge) the merged query gathers, for every creator, that creator's branches from the stored vector of the same event, and returns the stored vector itself only when no fork exists. (adapter) the consensus-side view reads Seq and the fork flag of the same entry. (branches) the creator -> branches table that gather and detect read (Engine.bi) is owned exclusively: a bounded storage-origin analysis (c06_own.go: definitions of locals, field-wise struct copies, append/make to the nesting depth of the type, callee summaries, call-site lifting of parameters) shows for every store in the module that the live table receives only freshly allocated / decoded storage or its own, and that no other retained field or package variable receives storage of the live table, so that the in-place change made for an event that is dropped afterwards cannot outlive DropNotFlushed. Not decided: that the branch bookkeeping (BranchIDByCreators, MinSeq/Seq ranges per branch) describes the DAG, i.e. the equality of each entry with the graph quantity for all DAGs and indexing orders; storage handed to a container through a call (cache.Add(k, bi)) or captured by a closure is not followed.",
+		"Decides the structural necessary conditions of the merged vector clock, not its values. Every clause works on the inlined view of its function (c06_inline.go): helpers of the same package that contain the calls the clause talks about are expanded in place (parameters bound to the arguments, single-return predicates substituted into conditions, results handed over through a result variable), so the facts are the same whether a loop, a loop body, a search or the final store is written out or lives in an extracted method; a stored entry may be a result carrier that receives the accumulator after the scan or the fork-detected branch itself. (gather) the merged entry of a creator is computed from every branch of that creator: the accumulator starts as the zero entry, is replaced by a branch exactly on the edges `branch is fork-detected` or `branch.Seq > accumulated.Seq` (normal form, so the maximum and not the minimum or the last is kept), the loop is left early only after a fork-detected branch, and the accumulator is stored for the requested validator on every path. (collect) when an event's vector collects a parent's vector the loop covers all branch indexes 0..num-1, an iteration ends without a write only when the parent's entry is empty (Seq == 0 and not fork-detected), the own entry is already fork-detected, or the own Seq is not smaller; the own Seq is overwritten by the parent's exactly on the `mine.Seq < his.Seq` edge and then stored. (fill) every parent's stored vector is collected into the vector that is later stored for the event, over all branches, after the vector was initialised with the event's own (branch, seq, seq). (detect) forks not seen by a single parent (the pair scan may be written out, or live in a boolean helper that is given the vector and the validator or its branch list, with the overlap test in a guard-chain predicate): for every validator not already marked, every ordered pair of distinct, non-empty branches is tested with the interval-overlap test MinSeq(a) <= Seq(b) && MinSeq(b) <= Seq(a) (normal form), the fork is marked exactly on that edge, and the pass runs whenever the index has at least one fork. (merge) the merged query gathers, for every creator, that creator's branches from the stored vector of the same event, and returns the stored vector itself only when no fork exists. (adapter) the consensus-side view reads Seq and the fork flag of the same entry. (branches) the creator -> branches table that gather and detect read (Engine.bi) is owned exclusively: a bounded storage-origin analysis (c06_own.go: definitions of locals, field-wise struct copies, append/make to the nesting depth of the type, callee summaries, call-site lifting of parameters) shows for every store in the module that the live table receives only freshly allocated / decoded storage or its own, and that no other retained field or package variable receives storage of the live table, so that the in-place change made for an event that is dropped afterwards cannot outlive DropNotFlushed. (persist) every in-place change of the branch table reaches the store with the next Flush (c06_persist.go): Flush hands the loaded table to a function that always reaches a key-value Put, on every path on which the table is loaded; when Flush may skip the store on one truth value of a boolean field, every store to a field of a branch table that is not being built in the same function lies on paths that all give the flag the other value (in the function, or around every call of it when the store lives in a helper), and the flag takes the skipping value only after a store or together with dropping the table. Not decided: that the branch bookkeeping (BranchIDByCreators, MinSeq/Seq ranges per branch) describes the DAG, i.e. the equality of each entry with the graph quantity for all DAGs and indexing orders; storage handed to a container through a call (cache.Add(k, bi)) or captured by a closure is not followed.",
 		[]string{"branch i < validators.Len() belongs to creator i (BranchesInfo construction, C05/C08)", "entry encoding Get/Set round-trips (vecfc vector codec)", "fork marker is absorbing and consumers use the merged API (C03)"},
 		runC06)
 }
@@ -96,6 +96,28 @@ func c06DeadBefore(f *core.FuncInfo, a assignment, use core.Point) bool {
 		}
 	}
 	return false
+}
+
+// c06LenOfField: e is (a conversion of) len(x.<field>), directly, through single-definition locals, or
+// through accessor functions of the module whose body is one `return expr` (bounded depth).
+func c06LenOfField(f *core.FuncInfo, e ast.Expr, field string, depth int) bool {
+	call, isCall := resolveLocal(f, core.StripConv(f.Info(), resolveLocal(f, e))).(*ast.CallExpr)
+	if !isCall {
+		return false
+	}
+	if calleeName(f, call) == "builtin.len" && len(call.Args) == 1 {
+		_, pth := fieldPath(f, call.Args[0])
+		return len(pth) >= 1 && pth[len(pth)-1] == field
+	}
+	if depth <= 0 {
+		return false
+	}
+	g := f.P.Func(calleeName(f, call))
+	if g == nil || g.Decl == nil || g.Body == nil {
+		return false
+	}
+	ret := c06ExprFunc(g)
+	return ret != nil && c06LenOfField(g, ret, field, depth-1)
 }
 
 func c06Body(it *core.Iteration) core.Point { return core.Point{B: it.Head.Succs[0], I: 0} }
@@ -503,11 +525,9 @@ func runC06(c *core.Ctx) {
 		c.Need(len(collects) >= 1, "fillEventVectors collects the parents' vectors")
 		before := collects[0].Recv()
 		nb := func(e ast.Expr) string {
-			// a local that holds the (converted) length is looked through
-			if call, isCall := res(core.StripConv(f.Info(), res(e))).(*ast.CallExpr); isCall && calleeName(f, call) == "builtin.len" && len(call.Args) == 1 {
-				if _, pth := fieldPath(f, call.Args[0]); len(pth) >= 1 && pth[len(pth)-1] == "vecengine.BranchesInfo.BranchIDCreatorIdxs" {
-					return "nb"
-				}
+			// a local that holds the (converted) length is looked through, and so is an accessor that returns it
+			if c06LenOfField(f, e, "vecengine.BranchesInfo.BranchIDCreatorIdxs", 2) {
+				return "nb"
 			}
 			return ""
 		}
@@ -629,6 +649,10 @@ func runC06(c *core.Ctx) {
 
 	c.Clause("C06.branches", func() {
 		c06Branches(c)
+	})
+
+	c.Clause("C06.persist", func() {
+		c06Persist(c)
 	})
 
 	c.Clause("C06.merge", func() {
